@@ -96,6 +96,15 @@ def hp_value(name, cfg):
     return symx.hp(name)
 
 
+def _assume_range(v, lo, hi, lo_closed, hi_closed):
+    if not IS_SYM or not isinstance(v, SymReal) or v.c is not None:
+        return
+    if lo is not None:
+        CTX.assume(v.n >= lo if lo_closed else v.n > lo)
+    if hi is not None:
+        CTX.assume(v.n <= hi if hi_closed else v.n < hi)
+
+
 def assume_domain(hp):
     """The documented hyperparameter domain (what the constructor accepts, property C17)."""
     if not IS_SYM:
@@ -180,6 +189,8 @@ class Stub:
             X = X.reshape(A.shape)
         rec["X"] = X
         t = to_tensor(X, A.dtype)
+        if not IS_SYM and any(bool(v) for k, v in (CTX.values or {}).items() if str(k).startswith("overflow_")):
+            t = t * 0 + 1e30  # replay of a downcast-overflow event: a finite root too large for the storage dtype
         if outcome in ("nan", "inf"):
             if IS_SYM:
                 setattr(t, "nf_" + outcome, True)
@@ -300,25 +311,56 @@ class OptRun:
                   grafting_config=gc, use_merge_dims=cfg.get("merge", True), preconditioner_dtype=fdt, preconditioner_config=pc)
         if cfg.get("distributed_config_factory") is not None:
             kw["distributed_config"] = cfg["distributed_config_factory"](self)
+        self.group_hp = [dict(hp) for _ in groups]
         if len(groups) == 1:
             plist = [self.params[i] for i in groups[0]]
         else:
             plist = []
-            self.group_hp = []
+            names = dict(lr="lr", weight_decay="wd", epsilon="eps", momentum="mom", dampening="damp", beta3="b3")
             for gi, idxs in enumerate(groups):
                 d = dict(params=[self.params[i] for i in idxs])
                 ov = (cfg.get("group_overrides") or [{}] * len(groups))[gi]
                 for key, val in ov.items():
-                    d[key] = val(self) if callable(val) else val
+                    # override values are names of fresh symbolic hyperparameters (documented domain assumed)
+                    if key == "betas":
+                        v1, v2 = hp_value(val[0], cfg), hp_value(val[1], cfg)
+                        _assume_range(v1, 0, 1, True, False)
+                        _assume_range(v2, 0, 1, False, True)
+                        d["betas"] = (v1, v2)
+                        self.group_hp[gi]["b1"], self.group_hp[gi]["b2"] = v1, v2
+                    else:
+                        v = hp_value(val, cfg)
+                        if key in ("lr", "weight_decay"):
+                            _assume_range(v, 0, None, True, False)
+                        elif key == "epsilon":
+                            _assume_range(v, 0, None, False, False)
+                        else:
+                            _assume_range(v, 0, 1, True, False)
+                        d[key] = v
+                        self.group_hp[gi][names[key]] = v
+                if cfg.get("assume_generic") and IS_SYM:
+                    g = self.group_hp[gi]
+                    for name, specials in (("b1", [0]), ("b2", [1]), ("b3", [-1]), ("wd", [0]), ("mom", [0])):
+                        v = g[name]
+                        if isinstance(v, SymReal) and v.c is None and v is not hp[name]:
+                            for sp in specials:
+                                CTX.assume(v.n != sp)
                 plist.append(d)
         self.opt = DistributedShampoo(plist, **kw)
-        # resolved effective hyperparameters (documented: -1 => beta1, resp. frequency)
+        # resolved effective hyperparameters (documented: -1 => beta1, resp. frequency); a group that leaves beta3 unset
+        # inherits the optimizer-level RESOLVED value
         self.eff = dict(hp)
         b3 = hp["b3"]
         is_default = (b3 == -1.0)
         if bool(is_default):
             self.eff["b3"] = hp["b1"]
         self.eff["delta"] = self.delta
+        for gi in range(len(groups)):
+            ov = (cfg.get("group_overrides") or [{}] * len(groups))[gi] if len(groups) > 1 else {}
+            g = self.group_hp[gi]
+            if "beta3" not in ov:
+                g["b3"] = self.eff["b3"]
+            g["delta"] = self.delta
         self.rcfg = dict(cfg)
         if cfg["sps"] == -1:
             self.rcfg["sps"] = cfg["pf"]
@@ -399,7 +441,9 @@ class OptRun:
         self.nsteps += 1
 
     def group_eff(self, gi):
-        return self.eff
+        if len(self.groups) == 1:
+            return self.eff
+        return self.group_hp[gi]
 
     def _sig(self, kind, **kw):
         d = dict(self.info)
